@@ -427,6 +427,8 @@ type c13ValGen struct {
 	nearMis bool
 	overlap bool
 	budget  int // remaining file leaves
+	// plainOnly: every leaf is an existing regular file inside the pipestance (replays of named witnesses)
+	plainOnly bool
 }
 
 func (g *c13ValGen) tag(t string) { g.tags[t] = true }
@@ -453,6 +455,9 @@ func (g *c13ValGen) newDir(dir, name string) string {
 func (g *c13ValGen) leaf(name string, isPath bool) *c13J {
 	g.budget--
 	r := g.rng.Intn(100)
+	if g.plainOnly {
+		r = 0
+	}
 	if isPath && r < 45 && r >= 20 {
 		r = 45 // more directories for `path`
 	}
@@ -583,6 +588,89 @@ func (g *c13ValGen) leaf(name string, isPath bool) *c13J {
 
 var c13Keys = []string{"a", "b", "k1", "zz", "0", "10", "é", "x y", "a&b"}
 
+// c13MapKeyNames: n distinct run-time keys of a typed map whose element type is elem, adversarial
+// relative to the scheme that derives an entry's name under outs/ from (key, element type): for a
+// base k also k.<ext>, k.<other ext>, "k.", ".<ext>", the bare extension, several dots, case
+// variants, names that look like array elements ("0", "00", "1.<ext>").  illegal: additionally one
+// key that is not a legal file name.
+func c13MapKeyNames(rng *rand.Rand, elem *c13Ty, n int, illegal bool) ([]string, []string) {
+	tags := map[string]bool{}
+	ext := c13UserTypes[rng.Intn(len(c13UserTypes))]
+	for e := elem; e != nil; e = e.Elem {
+		if e.Kind == "f" && e.Ext != "" {
+			ext = e.Ext
+		}
+	}
+	other := c13UserTypes[rng.Intn(len(c13UserTypes))]
+	atoms := []string{"a", "b", "k1", "zz", "0", "10", "é", "x y", "a&b", "report", "A", "00"}
+	variant := func(a string) string {
+		switch rng.Intn(14) {
+		case 0:
+			tags["key-with-own-ext"] = true
+			return a + "." + ext
+		case 1:
+			return a + "." + other
+		case 2:
+			return a + "."
+		case 3:
+			return "." + ext
+		case 4:
+			return ext
+		case 5:
+			tags["key-with-own-ext"] = true
+			return a + "." + ext + "." + ext
+		case 6:
+			if u := strings.ToUpper(a); u != a {
+				return u
+			}
+			return strings.ToLower(a)
+		case 7:
+			return "1." + ext
+		case 8:
+			return a + "_" + ext
+		case 9:
+			return a + "." + strings.ToUpper(ext)
+		}
+		return a
+	}
+	var keys []string
+	have := map[string]bool{}
+	add := func(k string) {
+		if !have[k] && k != "" && k != "." && k != ".." && !strings.ContainsAny(k, "/\x00") && len(k) <= 255 {
+			have[k] = true
+			keys = append(keys, k)
+		}
+	}
+	base := atoms[rng.Intn(len(atoms))]
+	cluster := rng.Intn(5) < 3
+	if cluster && n > 1 {
+		tags["key-cluster"] = true
+		add(base)
+	}
+	for tries := 0; len(keys) < n && tries < 60; tries++ {
+		a := base
+		if !cluster || rng.Intn(4) == 0 {
+			a = atoms[rng.Intn(len(atoms))]
+		}
+		add(variant(a))
+	}
+	if illegal {
+		tags["illegal-key"] = true
+		bad := []string{"a/b", "..", ".", "", base + "/" + base, strings.Repeat("x", 256), "a\x00b", "/" + base, base + "/"}[rng.Intn(9)]
+		at := 0
+		if len(keys) > 0 {
+			at = rng.Intn(len(keys) + 1)
+		}
+		keys = append(keys[:at], append([]string{bad}, keys[at:]...)...)
+	}
+	var ts []string
+	for t := range tags {
+		ts = append(ts, t)
+	}
+	sort.Strings(ts)
+	return keys, ts
+}
+
 func (g *c13ValGen) scalar(mro string) *c13J {
 	switch mro {
 	case "int":
@@ -600,7 +688,7 @@ func (g *c13ValGen) scalar(mro string) *c13J {
 }
 
 func (g *c13ValGen) value(t *c13Ty, name string) *c13J {
-	if g.rng.Intn(30) == 0 {
+	if !g.plainOnly && g.rng.Intn(30) == 0 {
 		g.tag("null")
 		return c13Null
 	}
@@ -639,16 +727,14 @@ func (g *c13ValGen) value(t *c13Ty, name string) *c13J {
 			g.tag("empty-map")
 		}
 		r := &c13J{K: 'O'}
-		perm := g.rng.Perm(len(c13Keys))
-		for i := 0; i < n; i++ {
-			k := c13Keys[perm[i]]
+		// run-time keys, adversarial relative to the scheme that names the entries under outs/
+		keys, ktags := c13MapKeyNames(g.rng, t.Elem, n, g.nearMis && g.rng.Intn(4) == 0)
+		for _, kt := range ktags {
+			g.tag(kt)
+		}
+		for i, k := range keys {
 			r.Keys = append(r.Keys, k)
 			r.Vals = append(r.Vals, g.value(t.Elem, name+"_k"+strconv.Itoa(i)))
-		}
-		if g.nearMis && g.rng.Intn(6) == 0 {
-			g.tag("illegal-key")
-			r.Keys = append(r.Keys, []string{"a/b", "..", ""}[g.rng.Intn(3)])
-			r.Vals = append(r.Vals, g.value(t.Elem, name+"_kx"))
 		}
 		return r
 	case "t":
@@ -673,7 +759,7 @@ func (g *c13ValGen) value(t *c13Ty, name string) *c13J {
 	return c13Null
 }
 
-var c13OutOfDomain = map[string]bool{"illtyped": true, "illegal-key": true, "struct-missing-key": true,
+var c13OutOfDomain = map[string]bool{"illtyped": true, "struct-missing-key": true,
 	"struct-extra-key": true, "overlap": true, "relative-path": true, "symlinked-parent-outside": true}
 
 type c13Stats struct {
@@ -764,6 +850,19 @@ func c13Direct(c *Ctx, r *Result, idx int, seed int64, nearMiss, overlap bool, c
 	extBefore := c13Snapshot([]string{g.ext}, cs, nil)
 	before := c13Snapshot([]string{root}, cs, nil)
 
+	// ---- the verification gate the runtime applies to every stage / pipeline output before it
+	// can complete (Fork.verifyOutput -> LazyArgumentMap.ValidateOutputs -> Type.IsValidJson) ----
+	gateOK, gateMsg := true, ""
+	{
+		lam := core.LazyArgumentMap{}
+		for i, p := range params {
+			lam[p.Id] = json.RawMessage(outs.Vals[i].String())
+		}
+		if err, _ := lam.ValidateOutputs(lookup, stage.OutParams); err != nil {
+			gateOK, gateMsg = false, err.Error()
+		}
+	}
+
 	// ---- the real code: processStructOuts / handleOuts around moveOutFiles ----
 	anyFile := false
 	for _, p := range params {
@@ -820,6 +919,17 @@ func c13Direct(c *Ctx, r *Result, idx int, seed int64, nearMiss, overlap bool, c
 			inDomain = false
 		}
 	}
+	if g.tags["illegal-key"] {
+		// a typed-map key that is not a legal file name: in the domain of the property exactly when
+		// output verification lets it through (then the pipestance could complete with this record)
+		if gateOK {
+			r.hist("direct:illegal-key:accepted-by-verification")
+		} else {
+			r.hist("direct:illegal-key:refused-by-verification")
+			inDomain = false
+		}
+	}
+	_ = gateMsg
 	sort.Strings(tags)
 	for _, t := range tags {
 		r.hist("direct:leaf:" + t)
@@ -863,6 +973,13 @@ func c13Direct(c *Ctx, r *Result, idx int, seed int64, nearMiss, overlap bool, c
 		for _, p := range params {
 			mon.walk(p.Id, p, outs.get(p.Id), post.get(p.Id), outsPath)
 		}
+		{
+			// model-free: every moved leaf recorded at a location of its own below outs/
+			own := newC13Mon(ps)
+			own.pre, own.kind, own.occ = mon.pre, mon.kind, mon.occ
+			c13OwnLocationRecord("", params, own, outs, post, outsPath, map[string]string{})
+			mon.fails = append(own.fails, mon.fails...)
+		}
 		if len(mon.fails) > 0 {
 			for i := range mon.fails {
 				mon.fails[i] = strings.ReplaceAll(mon.fails[i], root, "$ROOT")
@@ -898,6 +1015,58 @@ func c13Direct(c *Ctx, r *Result, idx int, seed int64, nearMiss, overlap bool, c
 			}
 			r.violate(Violation{Kind: "property", Key: "C13:overlapping-outputs", What: "an output inside another (directory) output: " + strings.Join(mon.fails, "; "),
 				Input: cas, Impl: strings.ReplaceAll(realStr, root, "$ROOT")})
+		}
+	}
+
+	// ---- the model's reading of the gate (keysVerified) against the real one ----
+	{
+		mk := c.Drv.Ask("C13.keysok", c13EncParams(params), outs.encStr())
+		r.hist(fmt.Sprintf("direct:gate:real=%v,model-keysVerified=%s", gateOK, mk))
+		otherNearMiss := g.tags["illtyped"] || g.tags["struct-missing-key"] || g.tags["struct-extra-key"]
+		if (gateOK && mk != "true") || (!gateOK && mk != "false" && !otherNearMiss) {
+			r.violate(Violation{Kind: "correspondence", Key: "C13:verification-gate", Broken: "verified_outputs_keep_all_keys (hypothesis keysVerified = what TypedMapType.IsValidJson demands of keys)",
+				What:  fmt.Sprintf("output verification (ValidateOutputs) accepted=%v, the model's keysVerified=%s: %s", gateOK, mk, c13Short(gateMsg)),
+				Input: cas})
+		}
+	}
+
+	// ---- the decidable hypotheses of the global theorems, evaluated by the driver on this input ----
+	{
+		covered := inDomain && !nearMiss && !overlap
+		for t := range g.tags {
+			if !c13CoveredTags[t] {
+				covered = false
+			}
+		}
+		wf, clean, ok := c13Hyp(c, ps, outsPath, params, outs, before.enc(c13Ancestors(root)))
+		if !ok {
+			r.violate(Violation{Kind: "correspondence", Key: "C13:driver", What: "hyp reply unreadable", Input: cas, Broken: "driver"})
+		} else {
+			r.hist(fmt.Sprintf("direct:hyp:wfParams:%v", wf))
+			r.hist(fmt.Sprintf("direct:hyp:cleanB:%v", clean))
+			if covered {
+				r.hist(fmt.Sprintf("direct:hyp:covered-run:wf=%v,clean=%v", wf, clean))
+			}
+			if wf && clean && perr == nil && (g.tags["overlap"] || g.tags["symlinked-parent-outside"]) {
+				// a leaf below a symlinked directory: the abstract file system has no entry there
+				// ("missing"), the real code resolves the parent (not modelled; F20 / F23)
+				r.hist("direct:record-half:skipped-symlinked-parent")
+			} else if wf && clean && perr == nil {
+				// the hypotheses of content_preserved(_record) hold on this input: the real record must
+				// be the one the theorem promises (every file leaf -> its destination path / null)
+				r.hist("direct:record-half:checked")
+				xr := strings.Split(c.Drv.Ask("C13.run", "x", "g", hx(ps), hx(outsPath), c13EncParams(params), outs.encStr(), before.enc(c13Ancestors(root))), "\t")
+				if len(xr) != 2 || unhx(xr[0]) != realStr {
+					r.violate(Violation{Kind: "correspondence", Key: "C13:model-record-half", Broken: "content_preserved_record (pureOuts / expectVal)",
+						What:  "wfParams and Clean hold, but the real rewritten record is not the input with every file leaf replaced by its destination path / null",
+						Input: cas, Impl: strings.ReplaceAll(realStr, root, "$ROOT"), Model: strings.ReplaceAll(unhx(xr[0]), root, "$ROOT")})
+				}
+			}
+			if !wf || (covered && !clean) {
+				r.violate(Violation{Kind: "correspondence", Key: "C13:hypothesis-fails-on-covered-run", Broken: "dest_injective / content_preserved (hypotheses wfParams, Clean)",
+					What:  fmt.Sprintf("a hypothesis of the global theorems fails on a run they are said to cover: wfParams=%v (signature accepted by the compiler) cleanB=%v (all leaves missing or regular files/directories inside the pipestance)", wf, clean),
+					Input: cas})
+			}
 		}
 	}
 
@@ -991,6 +1160,21 @@ func c13Direct(c *Ctx, r *Result, idx int, seed int64, nearMiss, overlap bool, c
 		r.sample(map[string]interface{}{"direct": cas.Outs, "types": c13EncParams(params), "result": strings.ReplaceAll(realStr, root, "$ROOT")})
 	}
 	return true
+}
+
+// leaf kinds for which the manifest says the GLOBAL content_preserved applies
+var c13CoveredTags = map[string]bool{"file": true, "dir": true, "missing": true, "null": true, "empty-string": true,
+	"empty-array": true, "empty-map": true, "multidim": true}
+
+// c13Hyp: wfParams and cleanB as evaluated by the driver.
+func c13Hyp(c *Ctx, ps, outsPath string, params []c13Member, outs *c13J, fsEnc string) (wf, clean, ok bool) {
+	reply := c.Drv.Ask("C13.hyp", hx(ps), hx(outsPath), c13EncParams(params), outs.encStr(), fsEnc)
+	var w, cl string
+	var n int
+	if _, err := fmt.Sscanf(reply, "wf=%s clean=%s leaves=%d", &w, &cl, &n); err != nil {
+		return false, false, false
+	}
+	return w == "true", cl == "true", true
 }
 
 // c13FailKey classifies a property failure for known-findings matching.
@@ -1104,11 +1288,24 @@ func runC13(c *Ctx) {
 	}()
 	r.note("model dimAware (regenerated from moveOutArrayDir) = %s", c.Drv.Ask("C13.dimaware"))
 
+	if os.Getenv("C13_MAPPED_CASE") != "" {
+		c13MappedStream(c, r)
+		return
+	}
 	// corpus first
 	c13Corpus(c, r)
 
 	// writer round trip on the model side (parse ∘ emit) for generated trees
 	c13WriterRoundTrip(c, r)
+
+	// GetOutFilename on run-time keys vs outFilename; injectivity per map
+	c13NamesStream(c, r)
+
+	// the forced-dimension modes of the driver on the input of multidim_not_moved_before_fix
+	c13DimWitness(c, r)
+
+	// the record writer (writeAtomic / os.WriteFile) under RLIMIT_FSIZE vs writeCut
+	c13WriterStream(c, r)
 
 	t0 := time.Now()
 	nDirect := 1200
@@ -1122,6 +1319,9 @@ func runC13(c *Ctx) {
 	}
 
 	r.note("direct stream: %d cases in %.1fs", nDirect, time.Since(t0).Seconds())
+	t0 = time.Now()
+	c13MappedStream(c, r)
+	r.note("mapped-keys stream (real Fork.postProcess): %.1fs", time.Since(t0).Seconds())
 	t0 = time.Now()
 	c13TierA(c, r)
 	r.note("tier A stream: %.1fs", time.Since(t0).Seconds())
@@ -1321,4 +1521,23 @@ func c13SimulateMove(sd c13SrcDest, steps int) bool {
 		}
 	}
 	return true
+}
+
+// c13DimWitness: Props.C13.multidim_not_moved_before_fix through the driver (one parameter,
+// dimAware forced off / on): `file[][] r = [["/ps/f"]]` is returned unchanged by the code before
+// the F5 repair and moved to outs/r/0/0 by the repaired one.
+func c13DimWitness(c *Ctx, r *Result) {
+	params := []c13Member{{Id: "r", Ty: &c13Ty{Kind: "a", Extra: 1, Elem: &c13Ty{Kind: "f", Mro: "file"}}}}
+	v := &c13J{K: 'A', Arr: []*c13J{{K: 'A', Arr: []*c13J{c13Str("/ps/f")}}}}
+	fs := c13Tree{"/ps": "D", "/ps/f": "F7"}
+	for _, da := range []string{"f", "t"} {
+		reply := c.Drv.Ask("C13.run", "p", da, hx("/ps"), hx("/ps/outs"), c13EncParams(params), v.encStr(), fs.enc(nil))
+		parts := strings.Split(reply, "\t")
+		want := map[string]string{"f": `[["/ps/f"]]`, "t": `[["/ps/outs/r/0/0"]]`}[da]
+		if len(parts) != 2 || unhx(parts[0]) != want {
+			r.violate(Violation{Kind: "correspondence", Key: "C13:dim-witness", Broken: "multidim_not_moved_before_fix",
+				What: "driver mode p/" + da + " on the witness of multidim_not_moved_before_fix", Input: v.String(), Model: c13Short(reply), Expect: want})
+		}
+		r.hist("dim-witness:" + da)
+	}
 }
